@@ -152,17 +152,18 @@ def judge (l : List Nat) (e : DirSpec.SpecEntry) : Verdict :=
   match e.run with
   | none => if l.isEmpty then .ok else .foreign
   | some r =>
-    let implConv := DirSpec.dropTrailingPads r
     let specName := DirSpec.nameOf r
-    if l = specName ∨ l = implConv then
+    let oldConv := DirSpec.dropTrailingPads r
+    if l = specName then
       -- F17 signature: a complete run honoured although more than 255 units remain
-      if l.length > 255 then .tooLong
-      -- the implementation's strip-all convention is accepted, except when a legitimately trailing U+FFFF is lost (F12)
-      else if l ≠ specName ∧ DirSpec.wellPadded r ∧ specName.length ≤ 255 then .ffffLost
-      else .ok
+      if l.length > 255 then .tooLong else .ok
+    else if l = oldConv then
+      -- F12 signature: every trailing 0x0000/0xFFFF unit stripped, so a legitimately trailing U+FFFF is lost
+      -- (with malformed padding the old convention returns units beyond the terminator: not the run's name)
+      if DirSpec.wellPadded r ∧ specName.length ≤ 255 then .ffffLost else .foreign
     else if l.isEmpty then
-      -- no long name for a complete run: correct iff the stripped run exceeds 255 units (the reader's cap)
-      if implConv.length > 255 then .ok else .ignored
+      -- no long name for a complete run: correct iff its name is empty or exceeds 255 units (the reader's cap)
+      if specName.isEmpty ∨ specName.length > 255 then .ok else .ignored
     -- F18 signature: units that are not the run's
     else .foreign
 
